@@ -160,7 +160,7 @@ def rule_R4(ctx):
                               "fork operands do not put the sub-pattern first: a1=%s%s a2=%s%s" % (
                                   k1, "" if imm1 else " (not taken right after the fork)",
                                   key(a2[1]) if a2 else None, " deferred" if deferred else ""), g.loc(ins))
-    if n_sites < 4:
+    if n_sites < 2:
         ctx.broken("only %d fork sites in the emitter" % n_sites)
     # ALT emits c1 before c2
     g = prog.func("rnode_emitnorep", file="regex.c")
@@ -958,6 +958,52 @@ def rule_L5(ctx):
                     got = grps.get(0, -1) if (ret is not None and ret >= 0) else -1
                     if got != want and bad is None:
                         bad = (lit, line, wbeg, wend, got, want)
+    # ignore-case: the fast path's byte comparison folds exactly what the engine folds
+    icase_bit = None
+    for n in am.walk():
+        if n["k"] == "bin" and n["op"] == "&" and strip_casts(n["l"])["k"] == "member" and \
+                strip_casts(n["l"])["field"] == "flg" and cval(n["r"]) is not None:
+            # the flag tested together with isupper/tolower
+            for par in am.ancestors(n["id"]):
+                if par["k"] != "bin" or par["op"] != "&&":
+                    break
+                if any(is_call(c, ("isupper", "tolower", "islower", "toupper")) for c in calls_in(par)):
+                    icase_bit = cval(n["r"])
+    if icase_bit is None:
+        raise AnalysisBroken("ratom_match: ignore-case flag test not found")
+    fold_bad = None
+    n_fold = 0
+    for a in range(1, 256):
+        for b in sorted({a, a ^ 0x20, a | 0x20, a & ~0x20 & 0xff} - {0, 0x0a}):
+            if a == 0x0a:
+                continue
+            line = (b, 0x0a, 0)
+            rs = {fl["name"]: 0 for fl in rec["fields"]}
+            rs["rs"] = None
+            rs["str"] = Ptr((a, 0))
+            rs["icase"] = 1
+            grps = {}
+            sp = Ptr(line)
+            st = {"s": Ptr(line, 0, sp.log), "o": sp, "flg": icase_bit, "pc": 0, "dep": 0}
+            try:
+                ret = Interp(prog).call(f, [rs, Ptr(line), 1, grps, 0])
+                eng = Interp(prog).call(am, [{"ra": 0, "s": Ptr((a, 0))}, st])
+            except (Unsupported, OverRead) as e:
+                raise AnalysisBroken("ignore-case comparison not evaluable: %s" % e)
+            n_fold += 1
+            fast = ret is not None and ret >= 0 and grps.get(0) == 0
+            if fast != (eng == 0) and fold_bad is None:
+                fold_bad = (a, b, fast)
+    if fold_bad:
+        a, b, fast = fold_bad
+        ctx.violation("match_case", "ignore-case folding agrees with the regex engine",
+                      "with ignore-case the literal byte 0x%02x %s the subject byte 0x%02x in the fast path but "
+                      "%s in the engine's literal atom: only ASCII letters fold" % (
+                          a, "matches" if fast else "does not match", b,
+                          "does not" if fast else "does"), f.loc(f.body))
+    else:
+        ctx.ok("match_case", "ignore-case: same verdict as ratom_match on %d (pattern byte, subject byte) pairs "
+               "(every byte against itself and its 0x20-neighbours)" % n_fold)
     if n_eval < 200:
         raise AnalysisBroken("only %d evaluations" % n_eval)
     if bad:
@@ -1045,125 +1091,183 @@ T4_SCOPE = {"C07": {"mot.c", "vi.c", "ren.c"}, "C09": {"vi.c", "term.c"}, "C12":
             "C18": {"ren.c", "uc.c", "dir.c"}}
 
 
+def _t4_func(prog, f, seeds):
+    """Unit inference for one function: (union-find, conflicts, votes for callee parameters,
+    unit of the returned value).  seeds: {key: (unit, why)} for this function's parameters."""
+    grps = set()
+    for c in f.calls(MATCHERS + ("regexec",)):
+        g = strip_casts(c["args"][3])
+        if g["k"] == "ref":
+            grps.add(g["name"])
+    uf = _UF()
+    conflicts = []
+    for k_, (u_, w_) in (seeds or {}).items():
+        uf.label(k_, u_, w_)
+
+    def node_of(e):
+        """union-find key of an int expression, or None"""
+        e = strip_casts(e)
+        if e is None:
+            return None
+        k = e["k"]
+        if k == "ref" and not e.get("ptr") and "[" not in e.get("ty", ""):
+            if e["cat"] == "global":
+                if e["name"] in CHAR_GLOBALS:
+                    x = "g:" + e["name"]
+                    uf.label(x, "CHAR", "global %s holds a character offset/count" % e["name"])
+                    return x
+                return None
+            return "v:" + e["name"]
+        if k == "call" and e.get("fn") in CHAR_FUNCS:
+            x = "e:%d" % e["id"]
+            uf.label(x, "CHAR", "%s() returns characters" % e["fn"])
+            return x
+        if k == "call" and e.get("fn") in BYTE_FUNCS:
+            x = "e:%d" % e["id"]
+            uf.label(x, "BYTE", "%s() returns bytes" % e["fn"])
+            return x
+        if k == "sub" and strip_casts(e["base"])["k"] == "ref" and strip_casts(e["base"])["name"] in grps:
+            x = "e:%d" % e["id"]
+            uf.label(x, "BYTE", "%s[] holds matcher byte offsets" % strip_casts(e["base"])["name"])
+            return x
+        if k == "bin" and e["op"] == "-" and strip_casts(e["l"]).get("ptr") and strip_casts(e["r"]).get("ptr") \
+                and "char" in strip_casts(e["l"]).get("ty", ""):
+            x = "e:%d" % e["id"]
+            uf.label(x, "BYTE", "pointer difference %s" % key(e)[:30])
+            return x
+        if k == "bin" and e["op"] in ("+", "-"):
+            if cval(e["r"]) is not None:
+                return node_of(e["l"])
+            if cval(e["l"]) is not None:
+                return node_of(e["r"])
+            a, b = node_of(e["l"]), node_of(e["r"])
+            if a and b:
+                c_ = uf.union(a, b, "`%s`" % key(e)[:40])
+                if c_:
+                    conflicts.append((e, c_))
+                return a
+            return a or b
+        if k == "cond":
+            a, b = node_of(e["t"]), node_of(e["f"])
+            if a and b:
+                c_ = uf.union(a, b, "`?:`")
+                if c_:
+                    conflicts.append((e, c_))
+            return a or b
+        if k == "un" and e["op"] in ("post++", "pre++", "post--", "pre--"):
+            return node_of(e["e"])
+        if k == "un" and e["op"] == "*" and strip_casts(e["e"])["k"] == "ref" and not e.get("ptr"):
+            return "d:" + strip_casts(e["e"])["name"]
+        return None
+
+    for n in f.walk():
+        k = n["k"]
+        if k == "var" and "init" in n and not n.get("ty", "").endswith("*"):
+            a = "v:" + n["name"]
+            b = node_of(n["init"])
+            if b:
+                c_ = uf.union(a, b, "initialiser of %s" % n["name"])
+                if c_:
+                    conflicts.append((n, c_))
+        elif k == "bin" and n["op"] in ("=", "+=", "-=") and not n["l"].get("ptr"):
+            a, b = node_of(n["l"]), node_of(n["r"])
+            if a and b:
+                c_ = uf.union(a, b, "`%s`" % key(n)[:40])
+                if c_:
+                    conflicts.append((n, c_))
+        elif k == "bin" and n["op"] in ("<", "<=", ">", ">=", "==", "!="):
+            a, b = node_of(n["l"]), node_of(n["r"])
+            if a and b:
+                c_ = uf.union(a, b, "comparison `%s`" % key(n)[:50])
+                if c_:
+                    conflicts.append((n, c_))
+        elif k == "call" and n.get("fn") in SINKS:
+            for i, u in SINKS[n["fn"]].items():
+                if i < len(n["args"]):
+                    a = node_of(n["args"][i])
+                    if a:
+                        c_ = uf.label(a, u, "argument %d of %s() is in %s" % (i + 1, n["fn"], u.lower() + "s"))
+                        if c_:
+                            conflicts.append((n, c_))
+        elif k == "bin" and n["op"] == "+" and n.get("ptr") and "char" in n.get("ty", ""):
+            # char pointer + offset: the offset is in bytes
+            off = n["r"] if strip_casts(n["l"]).get("ptr") or "[" in strip_casts(n["l"]).get("ty", "") else n["l"]
+            a = node_of(off)
+            if a:
+                c_ = uf.label(a, "BYTE", "added to the char pointer in `%s`" % key(n)[:40])
+                if c_:
+                    conflicts.append((n, c_))
+        elif k == "sub" and "char" in strip_casts(n["base"]).get("ty", "") and \
+                strip_casts(n["base"]).get("ty", "").count("*") + strip_casts(n["base"]).get("ty", "").count("[") == 1:
+            a = node_of(n["idx"])
+            if a:
+                c_ = uf.label(a, "BYTE", "index into the byte string `%s`" % key(n["base"])[:30])
+                if c_:
+                    conflicts.append((n, c_))
+    # what this function tells its callees: the unit of each argument it passes
+    votes = []
+    for c in f.calls():
+        fn = c.get("fn")
+        g = prog.resolve(f, fn) if fn else None
+        if g is None or fn in SINKS or fn in CHAR_FUNCS or fn in BYTE_FUNCS:
+            continue
+        for i, a in enumerate(c["args"]):
+            if i >= len(g.params):
+                break
+            a = strip_casts(a)
+            pty = g.params[i]["ty"].replace(" ", "")
+            if pty == "int*" and a["k"] == "un" and a["op"] == "&":
+                x = node_of(a["e"])
+                kk = "d:" + g.params[i]["name"]
+            elif pty == "int*" and a["k"] == "ref":
+                x = "d:" + a["name"]
+                kk = "d:" + g.params[i]["name"]
+            else:
+                # plain int parameters are not seeded: rows, counts and offsets share the type
+                continue
+            if x is None:
+                continue
+            u = uf.unit.get(uf.find(x))
+            votes.append((g.qname, kk, u, "%s passes %s" % (f.name, key(a)[:24])))
+    return uf, conflicts, votes
+
+
+def _t4_seeds(prog):
+    """Units of int / int * parameters inferred from what every call site passes (to a fixed
+    point): a parameter gets a unit only when every labelled call site agrees."""
+    seeds = {}
+    for rnd in range(4):
+        tally = {}
+        for f in prog.funcs.values():
+            if f.file in ("stag.c", "regex.c", "conf.c"):
+                continue
+            uf, conflicts, votes = _t4_func(prog, f, seeds.get(f.qname))
+            for q, kk, u, why in votes:
+                if u:
+                    tally.setdefault((q, kk), {}).setdefault(u, why)
+        new = {}
+        for (q, kk), us in tally.items():
+            if len(us) == 1:
+                u, why = next(iter(us.items()))
+                new.setdefault(q, {})[kk] = (u, "every labelled call site agrees (%s)" % why)
+        if new == seeds:
+            break
+        seeds = new
+    return seeds
+
+
 def rule_T4(ctx):
     scope = T4_SCOPE.get(ctx.prop)
     ctx.begin("T4", floor=1 if scope else 20, what="functions checked for byte/character unit consistency")
     prog = ctx.prog
     n_funcs = 0
+    seeds = _t4_seeds(prog)
     for f in prog.funcs.values():
         if f.file in ("stag.c", "regex.c", "conf.c"):
             continue
         if scope and f.file not in scope:
             continue
-        grps = set()
-        for c in f.calls(MATCHERS + ("regexec",)):
-            g = strip_casts(c["args"][3])
-            if g["k"] == "ref":
-                grps.add(g["name"])
-        uf = _UF()
-        conflicts = []
-
-        def node_of(e):
-            """union-find key of an int expression, or None"""
-            e = strip_casts(e)
-            if e is None:
-                return None
-            k = e["k"]
-            if k == "ref" and not e.get("ptr") and "[" not in e.get("ty", ""):
-                if e["cat"] == "global":
-                    if e["name"] in CHAR_GLOBALS:
-                        x = "g:" + e["name"]
-                        uf.label(x, "CHAR", "global %s holds a character offset/count" % e["name"])
-                        return x
-                    return None
-                return "v:" + e["name"]
-            if k == "call" and e.get("fn") in CHAR_FUNCS:
-                x = "e:%d" % e["id"]
-                uf.label(x, "CHAR", "%s() returns characters" % e["fn"])
-                return x
-            if k == "call" and e.get("fn") in BYTE_FUNCS:
-                x = "e:%d" % e["id"]
-                uf.label(x, "BYTE", "%s() returns bytes" % e["fn"])
-                return x
-            if k == "sub" and strip_casts(e["base"])["k"] == "ref" and strip_casts(e["base"])["name"] in grps:
-                x = "e:%d" % e["id"]
-                uf.label(x, "BYTE", "%s[] holds matcher byte offsets" % strip_casts(e["base"])["name"])
-                return x
-            if k == "bin" and e["op"] == "-" and strip_casts(e["l"]).get("ptr") and strip_casts(e["r"]).get("ptr") \
-                    and "char" in strip_casts(e["l"]).get("ty", ""):
-                x = "e:%d" % e["id"]
-                uf.label(x, "BYTE", "pointer difference %s" % key(e)[:30])
-                return x
-            if k == "bin" and e["op"] in ("+", "-"):
-                if cval(e["r"]) is not None:
-                    return node_of(e["l"])
-                if cval(e["l"]) is not None:
-                    return node_of(e["r"])
-                a, b = node_of(e["l"]), node_of(e["r"])
-                if a and b:
-                    c_ = uf.union(a, b, "`%s`" % key(e)[:40])
-                    if c_:
-                        conflicts.append((e, c_))
-                    return a
-                return a or b
-            if k == "cond":
-                a, b = node_of(e["t"]), node_of(e["f"])
-                if a and b:
-                    c_ = uf.union(a, b, "`?:`")
-                    if c_:
-                        conflicts.append((e, c_))
-                return a or b
-            if k == "un" and e["op"] in ("post++", "pre++", "post--", "pre--"):
-                return node_of(e["e"])
-            if k == "un" and e["op"] == "*" and strip_casts(e["e"])["k"] == "ref" and not e.get("ptr"):
-                return "d:" + strip_casts(e["e"])["name"]
-            return None
-
-        any_unit = False
-        for n in f.walk():
-            k = n["k"]
-            if k == "var" and "init" in n and not n.get("ty", "").endswith("*"):
-                a = "v:" + n["name"]
-                b = node_of(n["init"])
-                if b:
-                    c_ = uf.union(a, b, "initialiser of %s" % n["name"])
-                    if c_:
-                        conflicts.append((n, c_))
-            elif k == "bin" and n["op"] in ("=", "+=", "-=") and not n["l"].get("ptr"):
-                a, b = node_of(n["l"]), node_of(n["r"])
-                if a and b:
-                    c_ = uf.union(a, b, "`%s`" % key(n)[:40])
-                    if c_:
-                        conflicts.append((n, c_))
-            elif k == "bin" and n["op"] in ("<", "<=", ">", ">=", "==", "!="):
-                a, b = node_of(n["l"]), node_of(n["r"])
-                if a and b:
-                    c_ = uf.union(a, b, "comparison `%s`" % key(n)[:50])
-                    if c_:
-                        conflicts.append((n, c_))
-            elif k == "call" and n.get("fn") in SINKS:
-                for i, u in SINKS[n["fn"]].items():
-                    if i < len(n["args"]):
-                        a = node_of(n["args"][i])
-                        if a:
-                            c_ = uf.label(a, u, "argument %d of %s() is in %s" % (i + 1, n["fn"], u.lower() + "s"))
-                            if c_:
-                                conflicts.append((n, c_))
-            elif k == "bin" and n["op"] == "+" and n.get("ptr") and "char" in n.get("ty", ""):
-                # char pointer + offset: the offset is in bytes
-                off = n["r"] if strip_casts(n["l"]).get("ptr") or "[" in strip_casts(n["l"]).get("ty", "") else n["l"]
-                a = node_of(off)
-                if a:
-                    c_ = uf.label(a, "BYTE", "added to the char pointer in `%s`" % key(n)[:40])
-                    if c_:
-                        conflicts.append((n, c_))
-            elif k == "sub" and "char" in strip_casts(n["base"]).get("ty", "") and \
-                    strip_casts(n["base"]).get("ty", "").count("*") + strip_casts(n["base"]).get("ty", "").count("[") == 1:
-                a = node_of(n["idx"])
-                if a:
-                    c_ = uf.label(a, "BYTE", "index into the byte string `%s`" % key(n["base"])[:30])
-                    if c_:
-                        conflicts.append((n, c_))
+        uf, conflicts, votes = _t4_func(prog, f, seeds.get(f.qname))
         if not uf.unit:
             continue
         n_funcs += 1
